@@ -216,7 +216,9 @@ func (server *SugarDB) getValues(ctx context.Context, keys []string) map[string]
 	}
 
 	// Asynchronously update the keys in the cache.
+	verifTicket := server.verifCacheSpawn()
 	go func(ctx context.Context, keys []string) {
+		defer server.verifCacheEnter(verifTicket)()
 		if _, err := server.updateKeysInCache(ctx, keys); err != nil {
 			log.Printf("getValues error: %+v\n", err)
 		}
@@ -283,7 +285,9 @@ func (server *SugarDB) setValues(ctx context.Context, entries map[string]interfa
 	}
 
 	// Asynchronously update the keys in the cache.
+	verifTicket := server.verifCacheSpawn()
 	go func(ctx context.Context, entries map[string]interface{}) {
+		defer server.verifCacheEnter(verifTicket)()
 		for key, _ := range entries {
 			_, err := server.updateKeysInCache(ctx, []string{key})
 			if err != nil {
@@ -341,7 +345,9 @@ func (server *SugarDB) setExpiry(ctx context.Context, key string, expireAt time.
 
 	// If touch is true, update the keys status in the cache.
 	if touch {
+		verifTicket := server.verifCacheSpawn()
 		go func(ctx context.Context, key string) {
+			defer server.verifCacheEnter(verifTicket)()
 			_, err := server.updateKeysInCache(ctx, []string{key})
 			if err != nil {
 				log.Printf("setExpiry error: %+v\n", err)
